@@ -6,7 +6,7 @@ import json, os, subprocess, sys, glob, re
 ROOT = os.path.dirname(os.path.dirname(os.path.abspath(__file__)))
 REPO = "/repo"
 def sh(*a, **k):
-    return subprocess.run(a, capture_output=True, text=True, **k)
+    return subprocess.run(a, capture_output=True, text=True, errors="replace", **k)
 def key(d):
     m = re.match(r"C(\d+)-(\d+)", d); return (int(m.group(2)), int(m.group(1)))
 SAVE = "--save" in sys.argv
@@ -35,7 +35,7 @@ for sid in ids:
     try:
         # the saved regression cases are left out: this measures what the generators find
         env = dict(os.environ, VERIF_SEED=os.environ.get("VERIF_SEED", "1"), VERIF_NO_REGRESS="" if WITH_REGRESS else "1")
-        c = subprocess.run(["python3", ROOT + "/run.py", prop, "quick"], capture_output=True, text=True, env=env)
+        c = subprocess.run(["python3", ROOT + "/run.py", prop, "quick"], capture_output=True, text=True, errors="replace", env=env)
         viol = [l for l in c.stdout.splitlines() if l.startswith("VIOLATION")]
         ok = c.returncode == 1 and viol
         print(f"{sid}: {prop} quick rc={c.returncode} {'caught' if ok else 'NOT CAUGHT'}", flush=True)
@@ -65,7 +65,7 @@ for sid in ids:
             os.remove(os.path.join(REPO, f))
 # a saved case must hold on the unchanged tree
 for prop, dst in saved:
-    c = subprocess.run(["python3", ROOT + "/run.py", "replay", prop, dst], capture_output=True, text=True)
+    c = subprocess.run(["python3", ROOT + "/run.py", "replay", prop, dst], capture_output=True, text=True, errors="replace")
     if c.returncode != 0:
         print(f"saved case {dst} does not hold on the unchanged tree: removed")
         os.remove(dst)
